@@ -4,6 +4,9 @@
 //   * per-unit execution counter == 1 (<= 1, and group status `canceled`, when the group was cancelled);
 //   * "wait returned => every unit submitted to the group (transitively) has finished" — ghost flags read right
 //     after the wait returns;
+//   * HAPPENS-BEFORE (harness/shim/verif_hb.h): the submitter's initialisation of a unit, the unit's body and the waiter's read after the
+//     wait are ghost accesses of the unit's cell; they must be ordered by happens-before as computed from the memory orders the runtime
+//     passes to its atomic accesses ("a unit sees what was written before it was submitted", "the waiter then sees all of their writes");
 //   * no deadlock (every live thread parked) and no step-limit overrun;
 //   * task memory (r1::allocate / r1::deallocate are interposed with -Wl,--wrap, the real pool still does the work):
 //     no small object is freed twice, and whenever a thread allocates or frees a small object no cell in [head, tail) of
@@ -18,6 +21,7 @@
 #include "tbb/governor.h"
 #include "tbb/thread_data.h"
 #include "tbb/arena_slot.h"
+#include "verif_hb.h"
 #include <cstdio>
 #include <set>
 #include <thread>
@@ -33,13 +37,14 @@ struct Mon {
     std::vector<int> exec, started, finished;
     std::string err;
     int next = 0;
-    int fresh() { exec.push_back(0); started.push_back(0); finished.push_back(0); return next++; }
-    void begin(int id) { started[id]++; exec[id]++; }
-    void end(int id) { finished[id]++; }
+    int fresh() { exec.push_back(0); started.push_back(0); finished.push_back(0); verif::note("gw", (uint64_t)next); return next++; }   // the submitter initialises the unit
+    void begin(int id) { started[id]++; exec[id]++; verif::note("gw", (uint64_t)id); }
+    void end(int id) { finished[id]++; verif::note("gw", (uint64_t)id); }
     void fail(const std::string& m) { if (err.empty()) err = m; }
     // called right after a wait returned: every unit in [lo, hi) must have run exactly once and be finished
     void covered(int lo, int hi, const char* what, bool cancelled = false) {
         for (int i = lo; i < hi; ++i) {
+            verif::note("gr", (uint64_t)i);                                // the waiter reads what the unit wrote
             if (exec[i] > 1) fail(std::string("VIOLATION unit ") + std::to_string(i) + " of " + what + " executed " + std::to_string(exec[i]) + " times");
             else if (started[i] != finished[i]) fail(std::string("VIOLATION ") + what + " returned while unit " + std::to_string(i) + " was still running");
             else if (exec[i] == 0 && !cancelled) fail(std::string("VIOLATION ") + what + " returned but unit " + std::to_string(i) + " never ran (lost)");
@@ -309,10 +314,16 @@ static bool run_once(verif::Schedule& sch, int run_idx, bool print_ok) {
     std::string err = mon.err;
     if (r.deadlock && err.empty()) err = "DEADLOCK (every live thread parked, or step limit)";
     if (!r.deadlock) for (int i = 0; i < mon.next; ++i) if (mon.exec[i] > 1 && err.empty()) err = "VIOLATION unit " + std::to_string(i) + " executed " + std::to_string(mon.exec[i]) + " times";
+    verif::HbStats hbst;
+    if (!r.deadlock && err.empty()) {
+        auto races = verif::hb_check(r.log, bodies.size(), &hbst);
+        if (!races.empty()) err = "VIOLATION " + verif::hb_describe(r.log, races[0]) + " [" + verif::format_event(r.log[races[0].first]) + " | " + verif::format_event(r.log[races[0].second]) + "]";
+    }
     bool ok = err.empty();
     if (print_ok || !ok) {
         printf("run %d\n", run_idx);
         printf("units %d steps %zu threads %d\n", mon.next, r.steps, 1 + [&] { int mx = 0; for (int s : r.schedule) if (s > mx) mx = s; return mx; }());
+        printf("hb ghost=%zu sync=%zu\n", hbst.ghost, hbst.sync_edges);
         printf("mon %s\n", ok ? "ok" : err.c_str());
         if (!ok) { printf("sched"); for (int s : r.schedule) printf(" %d", s); printf("\n"); }
         printf("end\n");
